@@ -12,13 +12,13 @@ PROP = dict(
     level_note="Trusted: Go toolchain, rapid, the ~150-line map model in c08_restart_test.go. Single node, <= 2 indexes x <= 5 fields, <= 40 steps, columns in "
                "4 shards, 7 timestamps. While open finding DS6 (Store into a keyed field panics) is active, Store destinations are unkeyed fields; nothing else is steered around.",
     rule="rapid-generated histories of 4-40 operations drawn from {createField, deleteField, recreate field/index, Set, Clear, ClearRow, Store, Import, "
-         "Import(clear), ImportValue, ImportRoaring, SetRowAttrs, SetColumnAttrs, delete-every-attribute-of-an-id, bulk ImportValue (>= MaxOpN/(bitDepth+1) values: the fragment's snapshotting path) sent twice + 1-3 small writes + Reopen, the same with an Import of > MaxOpN bits into a set field, a snapshot-triggering write (Store / ClearRow / > MaxOpN-bit Import on a field with a TopN cache) immediately followed by Reopen, Reopen}; every history ends with a Reopen. distinct = hash of the executed "
+         "Import(clear), ImportValue, ImportRoaring, SetRowAttrs, SetColumnAttrs, delete-every-attribute-of-an-id, bulk ImportValue (>= MaxOpN/(bitDepth+1) values: the fragment's snapshotting path) sent twice + 1-3 small writes + Reopen, the same with an Import of > MaxOpN bits into a set field, a snapshot-triggering write (Store / ClearRow / > MaxOpN-bit Import on a field with a TopN cache) immediately followed by Reopen, remote available shards announced to a field (CreateShardMessage through API.ClusterMessage) and removed again (API.DeleteAvailableShard, often right before a Reopen), Reopen}; every history ends with a Reopen. distinct = hash of the executed "
          "history (index names normalised). non-trivial = at some restart the data directory holds an int field whose bit depth has not grown (no value or "
          "only zeros), or a time field with views of >= 2 granularities, or keyed rows/columns with data, or a row/column whose attributes were all deleted with null since the last restart, or a bulk import that was retried unchanged and followed by small writes, or a field/index that was deleted and recreated "
          "under the same name.",
     assumptions=["reference model: maps row->columns per view, column->value, attribute maps (c08_restart_test.go)",
                  "time-range probes use exactly one view interval (year/month/day/hour present in the quantum), both ends explicit",
-                 "AvailableShardsByIndex is compared before/after exactly and against the model as: superset of shards holding data, subset of shards ever written",
+                 "AvailableShardsByIndex and each field's AvailableShards are compared before/after exactly; against the model: superset of shards holding data, subset of shards ever written or announced as remote, and the remote shards of a field are exactly the model's until a Store() has run on an index with remote shards (it creates local fragments there)",
                  "TopN is probed with explicit ids (exact counts) and, after RecalculateCaches, from the caches with n > number of rows (plain and with a filter row) on set/mutex fields whose ranked/LRU cache holds every row the generator writes; compared as a sorted set of (row, count) pairs"],
     tags=["gs"],
     units=[
